@@ -53,13 +53,13 @@ def _smaller(comp, case):
 
 def _fails(pid, stream, case):
     import propdefs
-    reps = engine.run_cases(stream["component"], 0, 1, stream["params"], explicit=[case])
+    reps = engine.run_cases(stream["component"], 0, 1, stream["params"], explicit=[case], inproc=True)
     failures, cov, stats = [], {}, engine.Stats()
     propdefs._judge_stream(stream, reps, failures, cov, stats)
     return failures[0] if failures else None
 
 
-def shrink(pid, rep, budget=120):
+def shrink(pid, rep, budget=80):
     import propdefs
     prop = propdefs.PROPS[pid]
     if "streams" not in prop or rep.get("case") is None or rep["kind"] == "harness":
